@@ -125,6 +125,18 @@ def analyze_always_defined_attrs(class_irs: list[ClassIR]) -> None:
         detect_undefined_bitmap(cl, seen)
 
 
+def has_finalizer(cl: ClassIR) -> bool:
+    """Does the class, or one of its subclasses, define __del__?
+
+    A finalizer also runs on an object whose __init__ raised, so it can see any
+    attribute undefined.
+    """
+    if cl.has_method("__del__"):
+        return True
+    subclasses = cl.subclasses()
+    return subclasses is None or any(sub.has_method("__del__") for sub in subclasses)
+
+
 def analyze_always_defined_attrs_in_class(cl: ClassIR, seen: set[ClassIR]) -> None:
     if cl in seen:
         return
@@ -139,6 +151,7 @@ def analyze_always_defined_attrs_in_class(cl: ClassIR, seen: set[ClassIR]) -> No
         or cl.children is None
         or cl.is_serializable()
         or cl.has_method("__new__")
+        or has_finalizer(cl)
     ):
         # Give up -- we can't enforce that attributes are always defined.
         return
